@@ -97,6 +97,18 @@ def b_tuple(ex, st, node, args, kw, kind="tuple"):
     raise OutOfReach(f"tuple() of {x!r}")
 
 
+def b_range_desc(ex, st, node, args, kw):
+    """range(n, 0, -1) as a value (the Borda vector n, n-1, ..., 1): the spec function desc(n, n) as a sequence of exact numbers"""
+    from .calls import apply_spec
+    if len(args) == 3 and all(isinstance(a, VNum) for a in args):
+        lo, st_ = z3.simplify(args[1].term), z3.simplify(args[2].term)
+        sp = ex.ctx.registry.specs.get("desc") if ex.ctx.registry else None
+        if sp is not None and z3.is_int_value(lo) and lo.as_long() == 0 and z3.is_int_value(st_) and st_.as_long() == -1:
+            v = apply_spec(ex, sp, [args[0], args[0]], st)
+            return VSeq(v.term, S.Real, "list")
+    raise OutOfReach("range(...) as a value (only range(n, 0, -1) is modelled)")
+
+
 def b_list(ex, st, node, args, kw):
     if not args:
         return VTup([])
@@ -314,7 +326,7 @@ BUILTINS = {
     "len": b_len, "int": b_int, "float": b_float, "Fraction": b_Fraction, "tuple": b_tuple, "list": b_list,
     "frozenset": b_frozenset, "set": b_frozenset, "abs": b_abs, "min": b_minmax(False), "max": b_minmax(True),
     "isinstance": b_isinstance, "print": b_print, "cast": b_cast, "sum": b_sum, "round": b_round,
-    "str": None, "dict": None, "sorted": None, "range": None, "enumerate": None, "zip": None, "any": None, "all": None,
+    "str": None, "dict": None, "sorted": None, "range": b_range_desc, "enumerate": None, "zip": None, "any": None, "all": None,
 }
 BUILTINS = {k: v for k, v in BUILTINS.items() if v is not None}
 
